@@ -787,7 +787,7 @@ pub fn name_of_wire_len(rng: &mut Rng, wire_len: usize) -> RName {
 /// C01: sweeps the size of TSIG exchanges octet by octet across the
 /// response size limit (question length x key-name length x TSIG
 /// outcome), where space reservations for the TSIG record matter.
-fn tsig_size_sweep(rep: &mut Report, rng: &mut Rng) {
+pub fn tsig_size_sweep(rep: &mut Report, rng: &mut Rng, prop: &str) {
     let key_len = *rng.pick(&[5usize, 40, 120, 200, 210, 230, 255]);
     let key = Key { name: name_of_wire_len(rng, key_len), alg: if rng.bool() { Alg::Sha1 } else { Alg::Sha256 }, secret: rng.bytes(32) };
     let cfg = ServerCfg { payload: *rng.pick(&[512u16, 600, 1232]), rrl: None, keys: vec![key.clone()] };
@@ -817,11 +817,15 @@ fn tsig_size_sweep(rep: &mut Report, rng: &mut Rng) {
                 match handle(&server, &req, LOCALHOST, false, &mut bufs) {
                     Ok(resp) => {
                         let len = resp.as_ref().map(|r| r.len()).unwrap_or(0);
+                        if resp.is_none() {
+                            rep.violation(format!("{}:sweep-no-response", prop), format!("no response to a signed request (TSIG size sweep: variant {}, QNAME of {} octets, key name of {} octets, request {})", variant, l, key_len, hex(&req)), Json::obj(vec![("request", Json::hex(&req))]));
+                            return;
+                        }
                         rep.class(&format!("sweep:v{}:edns{}:len{}", variant, edns.is_some() as u8, len / 16));
                     }
                     Err(pi) => {
                         rep.violation(
-                            format!("c01:{}", pi.signature()),
+                            if prop == "c01" { format!("c01:{}", pi.signature()) } else { format!("{}:no-response-panic:{}", prop, pi.signature()) },
                             format!("handle_message panicked at {}: {} (TSIG size sweep: variant {}, QNAME of {} octets, key name of {} octets, request {})", pi.location, pi.message, variant, l, key_len, hex(&req)),
                             Json::obj(vec![("request", Json::hex(&req)), ("key_name", Json::hex(&key.name.wire())), ("key_secret", Json::hex(&key.secret)), ("key_alg", Json::s(format!("{:?}", key.alg))), ("server_payload", Json::Int(cfg.payload as i128))]),
                         );
@@ -902,7 +906,7 @@ pub fn run(ctx: &Ctx, rep: &mut Report, prop: &str) {
             continue;
         }
         if prop == "c01" && !ctx.is_miri() && case % 16 == 5 {
-            tsig_size_sweep(rep, &mut rng);
+            tsig_size_sweep(rep, &mut rng, "c01");
         }
         let per = if ctx.is_miri() { 6 } else { per_scenario };
         for _ in 0..per {
